@@ -75,6 +75,17 @@ func (av *AvailableVersion) readFile(name string) (string, error) {
 }
 
 
+// readFileLines reads a file whose lines may end in blanks that are part of the data (a file
+// name in CONTENTS may end in a space):  only empty lines at either end are dropped
+func (av *AvailableVersion) readFileLines(name string) (string, error) {
+	blob, err := fs.ReadFile(path.Join(av.Directory, name))
+	if err != nil {
+		return "", err
+	}
+	return strings.Trim(blob, "\n"), nil
+}
+
+
 func (av *AvailableVersion) readFileIfExists(name string) (string, bool, error) {
 	line, exists, err := fs.ReadFileIfExists(path.Join(av.Directory, name))
 	if err != nil {
